@@ -516,15 +516,26 @@ QUICK_ALPHABET = [
 ]
 
 
-def analyse(repo, tier='quick'):
+def _chunks(items, nproc):
+    return [items[i::nproc] for i in range(nproc) if items[i::nproc]]
+
+
+def _jobs():
+    import os
+    return int(os.environ.get('QB_JOBS', '0') or 0) or \
+        min(16, os.cpu_count() or 4)
+
+
+def _analyse_chunk(args):
+    root, wins = args
+    from .model import Repo
+    repo = Repo(root)
     hooks = Hooks(repo)
     sim = vmsim.VmSim(repo)
     vmsim.install_primitives(sim)
-    alpha = ALPHABET if tier == 'thorough' else QUICK_ALPHABET
     changed, witnesses, undecided = [], [], 0
     n = 0
-    for k in (1, 2, 3):
-        for win in itertools.product(alpha, repeat=k):
+    for win in wins:
             n += 1
             win = list(win)
             for r in run_optimize(hooks, win):
@@ -543,6 +554,33 @@ def analyse(repo, tier='quick'):
     return {'windows': n, 'rewritten': len(changed),
             'witnesses': witnesses, 'undecided': undecided,
             'sample_rewrites': changed[:8]}
+
+
+def analyse(repo, tier='quick'):
+    from concurrent.futures import ProcessPoolExecutor
+    alpha = ALPHABET if tier == 'thorough' else QUICK_ALPHABET
+    wins = [w for k in (1, 2, 3)
+            for w in itertools.product(alpha, repeat=k)]
+    chunks = _chunks(wins, _jobs())
+    if len(chunks) == 1:
+        parts = [_analyse_chunk((str(repo.root), chunks[0]))]
+    else:
+        with ProcessPoolExecutor(max_workers=len(chunks)) as ex:
+            parts = list(ex.map(_analyse_chunk,
+                                [(str(repo.root), c) for c in chunks]))
+    out = {'windows': 0, 'rewritten': 0, 'witnesses': [], 'undecided': 0,
+           'sample_rewrites': []}
+    for p in parts:
+        out['windows'] += p['windows']
+        out['rewritten'] += p['rewritten']
+        out['undecided'] += p['undecided']
+        out['witnesses'] += p['witnesses']
+        out['sample_rewrites'] += p['sample_rewrites']
+    out['witnesses'].sort(key=lambda x: (len(x[0]), repr(x[0])))
+    out['sample_rewrites'] = sorted(out['sample_rewrites'],
+                                    key=repr)[:8]
+    return out
+
 
 
 def check(ctx, pid):
@@ -584,3 +622,98 @@ def check(ctx, pid):
                     f'the pass rewrites {win} to {after}, which behaves '
                     f'differently: {w}', f.file, f.line,
                     facts={'witness': repr(w)})
+
+
+# --------------------------------------------------------------------------
+# debug markers must not change what the optimised code does (C08)
+# --------------------------------------------------------------------------
+
+def _markers_chunk(args):
+    root, wins = args
+    from .model import Repo
+    repo = Repo(root)
+    hooks = Hooks(repo)
+    sim = vmsim.VmSim(repo)
+    vmsim.install_primitives(sim)
+    n = differ = undec = 0
+    wit = None
+    boundary = [('_dbg_info_end', 'n'), ('_dbg_info_start', 'n')]
+    for win in wins:
+        win = list(win)
+        k = len(win)
+        plain = [r for r in run_optimize(hooks, win) if r[0] == 'ok']
+        if len(plain) != 1:
+            undec += 1
+            continue
+        for gaps in itertools.product((False, True), repeat=k - 1):
+            if not any(gaps):
+                continue
+            marked = []
+            for i, w in enumerate(win):
+                marked.append(w)
+                if i < k - 1 and gaps[i]:
+                    marked += boundary
+            res = [r for r in run_optimize(hooks, marked) if r[0] == 'ok']
+            if len(res) != 1:
+                undec += 1
+                continue
+            n += 1
+            a, b = plain[0][1], res[0][1]
+            if any(isinstance(x, Opaque) for w in a + b for x in w):
+                continue        # folds: values are opaque here
+            if [w for w in b if not w[0].startswith('_dbg')] == a:
+                continue
+            w_ = compare(sim, a, list(b))
+            if w_ is not None and 'why' not in w_:
+                differ += 1
+                if wit is None:
+                    wit = (win, marked, a, b, w_)
+    return n, differ, undec, wit
+
+
+def check_markers(ctx, pid):
+    """With debug info, `_dbg_info_start/_end` pseudo-instructions sit
+    between the statements and the peephole pass stops at them, so it
+    optimises *different* windows.  Decided here for every window of real
+    instructions over the alphabet and every way of putting a statement
+    boundary (an end marker followed by a start marker) into its gaps: the
+    optimised marked window and the optimised plain window behave alike on
+    the CPU handlers (markers are skipped by the assembler)."""
+    from concurrent.futures import ProcessPoolExecutor
+    repo = ctx.repo
+    rule = f'{pid}.markers-do-not-change-optimised-behaviour'
+    ctx.rule(rule, 'for every window of up to 3 real instructions over the '
+             'representative alphabet and every placement of statement '
+             'boundaries (`_dbg_info_end`, `_dbg_info_start`) in its gaps, '
+             'QvmCode.optimize (interpreted) yields code that goes to the '
+             'same place with the same stack and variables as the code it '
+             'yields for the window without markers, from every '
+             'representative operand stack and entry label')
+    alpha = [a for a in (ALPHABET if ctx.tier == 'thorough'
+                         else QUICK_ALPHABET) if not a[0].startswith('_dbg')]
+    f = repo.find_method(repo.cls('qbee.qvm_codegen', 'QvmCode'), 'optimize')
+    wins = [w for k in (2, 3) for w in itertools.product(alpha, repeat=k)]
+    chunks = _chunks(wins, _jobs())
+    if len(chunks) == 1:
+        parts = [_markers_chunk((str(repo.root), chunks[0]))]
+    else:
+        with ProcessPoolExecutor(max_workers=len(chunks)) as ex:
+            parts = list(ex.map(_markers_chunk,
+                                [(str(repo.root), c) for c in chunks]))
+    n = sum(p[0] for p in parts)
+    differ = sum(p[1] for p in parts)
+    undec = sum(p[2] for p in parts)
+    wits = sorted([p[3] for p in parts if p[3] is not None],
+                  key=lambda x: (len(x[0]), repr(x[0])))
+    wit = wits[0] if wits else None
+    construct = f'{f.file}:QvmCode.optimize:markers'
+    ctx.instance(rule, construct, sample={'windows_x_placements': n,
+                                          'undecided': undec})
+    ctx.floor('marker placements interpreted', n, 500)
+    if wit is not None:
+        win, marked, a, b, w_ = wit
+        ctx.finding(rule, construct,
+                    f'{differ} placement(s) differ; e.g. the window {win} is '
+                    f'optimised to {a}, with statement boundaries {marked} '
+                    f'to {b}, and they behave differently: {w_}',
+                    f.file, f.line, facts={'witness': repr(w_)})
